@@ -159,7 +159,8 @@ where
         // (essentially one step of the Garner's algorithm for recovery from RNS).
 
         // `s` is odd, so this always exists
-        let m_odd_inv = s.inv_mod2k(k).expect("inverse mod 2^k exists");
+        // (for a zero modulus `s` is zero as well: the result is none in that case anyway)
+        let m_odd_inv = s.inv_mod2k(k).unwrap_or(Self::ZERO);
 
         // This part is mod 2^k
         let shifted = Uint::ONE.overflowing_shl(k).unwrap_or(Self::ZERO);
